@@ -37,13 +37,13 @@ CHECKS.update({
     "C09": simcheck("§4 C09", "Generated acquire/release/heartbeat of 3 executions x 2 processes on 2 resources with ttl 0..3s, sweeps and clock steps onto lease ends; oracle L1-L5: every response decided on the pre-state of its transaction by a reference model from the statement; the locks table changes only by the holder's release / re-acquire, its process's heartbeat (lease = clock + ttl), or expiry at a tick >= lease end."),
     "C10": simcheck("§4 C10", "Generated schedules (cron grammar, id templates, an id with markup characters, promise tags that route so that firings take the create-with-task path), clock jumps over many occurrences, schedule batch sizes, create/delete/re-create and user-created occurrence promises racing the cycle, faults and crashes; oracle S1-S4 with an independent robfig/cron computation and reference template expansion: occurrences fire once, in order, never early, promise + advance in one transaction, correct promise fields, nothing fires for a deleted incarnation's later occurrences; create/delete answers justified by the stored schedule of the request window (idempotent by key)."),
     "C11": simcheck("§4 C11", "Phase 1 builds a reachable backlog without background work, the clock jumps, the kernel restarts with all five background coroutines (registration order permuted) and a configuration drawn over the documented ranges down to batch sizes and coroutine pool of one; a finite failure phase; then cycles (clock + signal timeout, ticks until settled). Oracle: the statement's quiescence predicates (each compared with the clock of an earlier cycle) hold once a bound computed from all pending work / batch sizes has passed, every cycle settles, every background coroutine keeps being started while idle, no task stays dispatchable beyond its bound. Workloads are kept below service capacity (schedule periods >= 60 s, scheduled promises not overdue) so that lag cannot grow without a defect. Tier (b), production queues: api + aio + sqlite store subsystem (real worker) with completion / submission queues of 1..8, sweeps with batches up to 100, clock owned by the harness: every Tick returns (watchdog) and the backlog of overdue promises and locks is worked off. Found F12 (repaired)."),
-    "C14": simcheck("§4 C14", "Generated populations, queries (wildcards, state subsets, tags, limits relative to the match count) and full cursor traversals through encode->token->decode with creations, completions, deletions and time-outs interleaved; oracle R1-R6: returned items match (id pattern, state mask, tags) in the state the page was computed from and carry that state, the cursor keeps the query, no duplicates, newest-first by sort id, page size and cursor presence (populations larger than the largest page included), the server's own cursor is accepted by the API layer both front ends use, everything that matched throughout a completed traversal is returned, overdue promises never reported pending, tampered tokens rejected."),
+    "C14": simcheck("§4 C14", "Generated populations, queries (wildcards, state subsets, tags, limits relative to the match count) and full cursor traversals through encode->token->decode with creations, completions, deletions and time-outs interleaved; oracle R1-R6: returned items match (id pattern, state mask, tags) in the state the page was computed from and carry that state, the cursor keeps the query, no duplicates, newest-first by sort id, page size and cursor presence (populations larger than the largest page included), the server's own cursor is accepted by the API layer both front ends use, everything that matched throughout a completed traversal is returned, overdue promises never reported pending, tampered tokens rejected; thorough tier: native coverage-guided fuzzing of the claims of well-signed forged cursors (the signing key is a constant) against the invariants the kernel asserts."),
     "C18": dict(engine="pollt", category="exploration", design="§5 C18",
                 technique="model-based stateful property testing (rapid state machine) of the production PollWorker loop on harness-owned channels against a reference model; plus a wire-level run with real SSE clients",
                 text="(a) deterministic: connect / disconnect / reconnect-same-id / drain / send (half of them through the production sender worker: receiver resolution, body, message type) / send-with-malformed-receiver-data sequences over 2 groups, ids incl. empty and slashes, limits and buffers down to 1; reference model = registry of live listeners with FIFO buffers; after every operation every channel the harness ever created is audited (contents, closed exactly when the model says, registry count). (b) wire level: the real plugin on a loopback port with SSE clients and churn; each body read at most once, only in its group, only if reported delivered. Found F11 (data null crashes the transport), repaired.",
                 note="(a) runs the real PollWorker.Start loop in one goroutine on channels the harness owns (hook VerifLoop only constructs it) and synchronises through barrier messages sent down the same channel, so outcomes are deterministic; the HTTP handler and real network timing are only covered by (b), which samples real scheduling; time-outs there are classified inconclusive, never a violation. The random choice among group members is judged by a validity predicate."),
     "C19": dict(engine="route", category="exploration", design="§5 C19",
-                technique="property-based testing (rapid) of the real router and sender worker against an independent reference resolution written from the statement",
+                technique="property-based testing (rapid) of the real router and sender worker against an independent reference resolution written from the statement; model-based sequences through the production http plugin; native coverage-guided fuzzing (go test -fuzz) of the routing tag bytes against the same reference in the thorough tier",
                 text="Routing tag values from a JSON-aware grammar plus free strings, source tables (order, default), target tables overlapping URL-looking names, plugin availability, task kind and hand-off outcome; the promise goes through router.New/Process, the recv through sender.New's target table and SenderWorker.Process with recording plugins. Oracle: route/no-route and logical/physical classification, (transport, data) resolution, message body naming task id/counter/links or the promise, exactly one completion per submission, success only when a transport accepted. Tier (b): the production sender with the PRODUCTION http plugin in front of local HTTP receivers, sequences of hand-offs through one worker (receivers with and without url, per-message headers, 200/503): one POST at the receiver's url with exactly its headers, success iff 200, a receiver without a usable url is a failed hand-off and nobody receives anything. Found F6 (tag value null crashes the router), repaired.",
                 note="Recording plugins stand in for the poll/http transports (those are C18 and C13/C20). JSON field names are matched case-insensitively like Go's decoder (the statement is silent). Receiver data is compared as JSON values."),
     "C12": dict(engine="kernelq", category="exploration", design="§5 C12",
